@@ -54,7 +54,7 @@ func tick() int64 { return atomic.AddInt64(&clock, 1) }
 
 // stuckSeen counts attributable-stuck RPCs in this process; after two of them
 // the remaining RPCs of the shard are skipped (each costs the full grace).
-var stuckSeen int
+var stuckSeen int32
 
 const stuckGrace = 20 * time.Second
 
@@ -133,17 +133,23 @@ type world struct {
 }
 
 // newWorld creates the real cache and server. opt selects a server option: 0 none, 1 WithStats, 2 WithoutDupReport.
-func newWorld(targets []string, opt int) *world {
+func newWorld(targets []string, opt int) *world { return newWorldT(targets, opt, 0) }
+
+// newWorldT: as newWorld; timeout > 0 sets the server's send timeout (default: one minute).
+func newWorldT(targets []string, opt int, timeout time.Duration) *world {
 	w := &world{targets: append([]string{}, targets...), leaves: map[string]*leaf{}, trees: map[string]*model.Tree{}}
 	w.c = cache.New(targets)
+	var opts []subscribe.Option
 	switch opt {
 	case 1:
-		w.srv, _ = subscribe.NewServer(w.c, subscribe.WithStats())
+		opts = append(opts, subscribe.WithStats())
 	case 2:
-		w.srv, _ = subscribe.NewServer(w.c, subscribe.WithoutDupReport())
-	default:
-		w.srv, _ = subscribe.NewServer(w.c)
+		opts = append(opts, subscribe.WithoutDupReport())
 	}
+	if timeout > 0 {
+		opts = append(opts, subscribe.WithTimeout(timeout))
+	}
+	w.srv, _ = subscribe.NewServer(w.c, opts...)
 	w.c.SetClient(w.srv.Update)
 	for _, t := range targets {
 		w.trees[t] = model.NewTree()
@@ -499,6 +505,7 @@ type rpcObs struct {
 	Err        error
 	Panic      string
 	EndedEarly bool   // the RPC ended before a round's sync_response was observed
+	EndedIdle  int    // > 0: the RPC ended on its own while the client was idle after the sync_response of round EndedIdle-1
 	Stuck      string // what was awaited when nothing moved for the whole grace period
 	StuckAttr  bool   // the goroutine dump shows the RPC still inside Subscribe
 	Late       int    // responses sent after Subscribe had returned
@@ -511,6 +518,7 @@ type driveOpts struct {
 	between    func(round int) // after a round's sync was observed, before the next trigger
 	quiet      func() bool     // nothing else is running (writers done); nil = always quiet
 	slowSend   int             // 0 none, 1 yield in Send, 2 short sleep in the first sends
+	idle       time.Duration   // POLL: after every round's sync_response the client stays idle this long (nothing is being sent)
 }
 
 var pollTrigger = &pb.SubscribeRequest{Request: &pb.SubscribeRequest_Poll{Poll: &pb.Poll{}}}
@@ -685,6 +693,18 @@ func drive(srv *subscribe.Server, req *pb.SubscribeRequest, o driveOpts) *rpcObs
 		}
 		ro := roundObs{Start: start, End: tick(), Resp: sent[from : idx+1], Ticks: getTicks(from, idx+1), HasSync: true}
 		from = idx + 1
+		if o.idle > 0 {
+			// The round is complete and no trigger is outstanding: the server has
+			// nothing to send, so nothing of it may time out, however long this lasts.
+			select {
+			case <-done:
+				obs.Rounds = append(obs.Rounds, ro)
+				obs.EndedIdle = rd + 1
+				obs.Ended = true
+				return obs
+			case <-time.After(o.idle):
+			}
+		}
 		if rd == o.polls {
 			obs.Rounds = append(obs.Rounds, ro)
 			break
@@ -847,7 +867,7 @@ func reportStuck(r *vlib.Run, mode string, trial int, tag string, s *subSpec, ob
 		r.Inconclusive("nothing was sent for " + stuckGrace.String() + " while waiting for " + obs.Stuck + ", but the goroutine dump does not show the RPC inside Subscribe")
 		return
 	}
-	stuckSeen++
+	atomic.AddInt32(&stuckSeen, 1)
 	sig := "rpc-does-not-end"
 	if strings.HasPrefix(obs.Stuck, "the sync_response") {
 		sig = "no-sync"
@@ -867,7 +887,7 @@ type staticCase struct {
 
 // runStatic drives one RPC and judges it. mutate is called between POLL rounds (may be nil).
 func runStatic(r *vlib.Run, cs staticCase, w *world, s *subSpec, slow int, mutate func(round int)) {
-	if stuckSeen >= 2 {
+	if atomic.LoadInt32(&stuckSeen) >= 2 {
 		r.Count("rpcs_skipped_after_two_stuck_rpcs", 1)
 		return
 	}
@@ -1178,13 +1198,13 @@ func (w *world) addRandomAtomic(rng *rand.Rand, origins []string, target string)
 
 var originSets = [][]string{{""}, {"oc"}, {"oc", "o2"}, {"", "oc"}}
 
-func genWorld(rng *rand.Rand) (*world, []string) {
+func genWorld(rng *rand.Rand, timeout time.Duration) (*world, []string) {
 	nT := 1 + rng.Intn(3)
 	var targets []string
 	for i := 0; i < nT; i++ {
 		targets = append(targets, fmt.Sprintf("T%d", i))
 	}
-	w := newWorld(targets, []int{0, 0, 1, 2}[rng.Intn(4)])
+	w := newWorldT(targets, []int{0, 0, 1, 2}[rng.Intn(4)], timeout)
 	origins := originSets[rng.Intn(len(originSets))]
 	want := 5 + rng.Intn(26)
 	if rng.Intn(10) < 7 {
@@ -1463,7 +1483,7 @@ func (w *world) mutate(rng *rand.Rand, origins []string) (did []string) {
 
 func runRandomStatic(r *vlib.Run, trial int, rng *rand.Rand) {
 	r.SaveCurrent(map[string]interface{}{"mode": "static", "trial": trial})
-	w, origins := genWorld(rng)
+	w, origins := genWorld(rng, 0)
 	if w.broken != "" {
 		r.Inconclusive("static world could not be built (cache refused an update the prefix-free model accepts)")
 		r.Count("worlds_not_built", 1)
@@ -1525,7 +1545,7 @@ type concRPC struct {
 }
 
 func runConcurrent(r *vlib.Run, trial int, rng *rand.Rand) {
-	if stuckSeen >= 2 {
+	if atomic.LoadInt32(&stuckSeen) >= 2 {
 		r.Count("rpcs_skipped_after_two_stuck_rpcs", 1)
 		return
 	}
@@ -1910,6 +1930,113 @@ func runConcurrent(r *vlib.Run, trial int, rng *rand.Rand) {
 }
 
 // ---------------------------------------------------------------------------
+// Idle POLL client: the server's send timeout must only cover sends. The
+// server gets a short timeout T; after every round's sync_response the client
+// waits 3-4 x T before it issues the next trigger (or closes the request
+// stream). Nothing is being sent meanwhile, so correct code has no timer
+// armed: waiting longer can only make a wrongly armed timer more certain to
+// fire (one-sided, load only lengthens the wait). Every round must still be
+// answered completely and the RPC must end with nil.
+// (ONCE has no such phase: after its sync_response the queue is closed and the
+// RPC returns at once, there is no server-side idle period to observe.)
+
+func runPollIdle(r *vlib.Run, trial int, rng *rand.Rand) {
+	if atomic.LoadInt32(&stuckSeen) >= 2 {
+		r.Count("rpcs_skipped_after_two_stuck_rpcs", 1)
+		return
+	}
+	timeout := time.Duration(50+rng.Intn(101)) * time.Millisecond
+	idle := time.Duration(float64(timeout) * (3 + rng.Float64()))
+	w, origins := genWorld(rng, timeout)
+	if w.broken != "" {
+		r.Inconclusive("static world could not be built (cache refused an update the prefix-free model accepts)")
+		return
+	}
+	var s *subSpec
+	for try := 0; try < 20; try++ {
+		s = genSub(rng, w, true)
+		if _, rejected := s.queries(); !rejected {
+			break
+		}
+		s = nil
+	}
+	if s == nil {
+		return
+	}
+	s.Polls = 1 + rng.Intn(2)
+	qs, _ := s.queries()
+	req := s.request()
+	mrng := rand.New(rand.NewSource(rng.Int63()))
+	snaps := []*world{w.snapshot()}
+	var changes []string
+	r.Eval(1)
+	obs := drive(w.srv, req, driveOpts{poll: true, polls: s.Polls, idle: idle, between: func(rd int) {
+		changes = append(changes, w.mutate(mrng, origins)...)
+		snaps = append(snaps, w.snapshot())
+	}})
+	tag := fmt.Sprintf("send timeout %v, client idle %v after every sync_response", timeout, idle.Round(time.Millisecond))
+	wit := func() map[string]interface{} {
+		m := map[string]interface{}{"case": tag, "subscription": s.describe(), "request": req.String(), "send_timeout_ms": timeout.Milliseconds(), "idle_ms": idle.Milliseconds(), "between_round_changes": changes}
+		var rounds []interface{}
+		for i, ro := range obs.Rounds {
+			rounds = append(rounds, map[string]interface{}{"round": i, "responses": compactLog(ro.Resp, 40)})
+		}
+		m["rounds_observed"] = rounds
+		if obs.Stuck == "" {
+			m["rpc_error"] = fmt.Sprint(obs.Err)
+		}
+		return m
+	}
+	if obs.Stuck != "" {
+		reportStuck(r, "pollidle", trial, tag, s, obs, wit())
+		return
+	}
+	if obs.EndedIdle > 0 {
+		r.Violation("pollidle", trial, "poll-terminated-while-idle", fmt.Sprintf("%s: %s: the RPC ended on its own with status %v while the client was idle after the sync_response of round %d (round complete, no trigger outstanding, nothing being sent); the next poll trigger could not be answered", tag, s.describe()["mode"], obs.Err, obs.EndedIdle-1), wit())
+		return
+	}
+	if obs.EndedEarly && obs.Err != nil && strings.Contains(obs.Err.Error(), "timed out while sending") {
+		// The timeout fired while a round was being sent: with 50-150 ms this is
+		// what a starved process looks like, not something this mode decides.
+		r.Inconclusive("pollidle: the server's short send timeout fired while a round was being sent (machine load); trial not judged")
+		return
+	}
+	if v := judgeShape(s, obs); v != nil {
+		m := wit()
+		rd := v.round
+		if rd < 0 || rd >= len(snaps) {
+			rd = len(snaps) - 1
+		}
+		m["cache_content_at_that_round"] = snaps[rd].dump()
+		r.Violation("pollidle", trial, v.sig, fmt.Sprintf("%s: %s: %s", tag, s.describe()["mode"], v.what), m)
+		return
+	}
+	nontrivial := false
+	for rd, ro := range obs.Rounds {
+		v, stt := judgeStatic(snaps[rd], s, qs, rd, ro)
+		if v != nil {
+			m := wit()
+			m["cache_content_at_that_round"] = snaps[rd].dump()
+			r.Violation("pollidle", trial, v.sig, fmt.Sprintf("%s: %s: %s", tag, s.describe()["mode"], v.what), m)
+			return
+		}
+		if rd > 0 {
+			r.Count("pollidle_rounds_answered_completely_after_idle", 1)
+			if stt.expected > 0 {
+				nontrivial = true
+			}
+		}
+		r.Count("pollidle_matching_leaves_required", int64(stt.expected))
+	}
+	r.Count("pollidle_rpcs_ended_ok_after_idle_close", 1)
+	r.Count("pollidle_idle_periods", int64(len(obs.Rounds)))
+	r.Count("pollidle_idle_ms_total", int64(len(obs.Rounds))*idle.Milliseconds())
+	if nontrivial {
+		r.Distinct(vlib.Hash("pollidle", req.String(), strings.Join(snaps[0].dump(), "\n"), timeout))
+	}
+}
+
+// ---------------------------------------------------------------------------
 
 func body(r *vlib.Run) {
 	if r.OnlyTrial < 0 || r.OnlyMode == "exhaustive" {
@@ -1921,11 +2048,25 @@ func body(r *vlib.Run) {
 	r.ForTrials("concurrent", r.N(200, 3000), func(trial int, rng *rand.Rand) {
 		runConcurrent(r, trial, rng)
 	})
+	// The idle trials mostly sleep; those of a shard run side by side (no hooks,
+	// no shared state besides the mutex-guarded Run).
+	var wg sync.WaitGroup
+	sem := make(chan struct{}, 12)
+	r.ForTrials("pollidle", r.N(40, 600), func(trial int, rng *rand.Rand) {
+		wg.Add(1)
+		sem <- struct{}{}
+		go func() {
+			defer wg.Done()
+			defer func() { <-sem }()
+			runPollIdle(r, trial, rng)
+		}()
+	})
+	wg.Wait()
 }
 
 func postMerge(tier string, c map[string]int64) []string {
 	var out []string
-	for _, k := range []string{"rounds_judged_once", "rounds_judged_poll_initial", "rounds_judged_poll_after_trigger", "matching_set_proper", "rejected_origin_combination_rpcs", "leaves_delivered_more_than_once", "between_round_cache_changes", "conc_rounds_overlapping_writes_to_matching_leaves", "conc_leaves_required_present", "conc_values_judged"} {
+	for _, k := range []string{"rounds_judged_once", "rounds_judged_poll_initial", "rounds_judged_poll_after_trigger", "matching_set_proper", "rejected_origin_combination_rpcs", "leaves_delivered_more_than_once", "between_round_cache_changes", "conc_rounds_overlapping_writes_to_matching_leaves", "conc_leaves_required_present", "conc_values_judged", "pollidle_rounds_answered_completely_after_idle"} {
 		if c[k] == 0 {
 			out = append(out, "oracle branch never exercised: "+k)
 		}
@@ -1939,6 +2080,7 @@ func main() {
 		Rule: "exhaustive: every query over {a,b,*} up to length 4 (thorough 5) against a 3-level x 2-name tree held by two targets under origin 'oc', at every prefix/path split, with the origin in the prefix, in the path, or absent (first element '*', the literal origin, or nothing), for one target and target '*', as ONCE and as POLL with one trigger; plus every ordered pair of queries up to length 3 as a two-path ONCE subscription on '*'. " +
 			"static: seeded cache contents (1-3 targets, origin sets {''},{oc},{oc,o2},{'',oc} stamped in the prefix, keyed elements with one and two keys, both path encodings, multi-update notifications, one atomic container, 5-30 leaves) and, per content, one ONCE and one POLL subscription (1-4 paths derived from stored leaves by cutting, running one element past the leaf, '*' or a stray name at any position; origin in prefix / path / absent; target '*' in 35 %; duplicate and path-less subscriptions; 8 % rejected origin combinations), POLL with 0-4 triggers and 1-4 sequential cache changes (update, add, exact / wildcard delete, atomic container, new target) between rounds; every third trial a slow receiver. " +
 			"concurrent: 1-3 targets, one writer goroutine per target (150-500 updates with unique values, leaf / subtree deletes, re-adds) while 3-6 ONCE / POLL(1-3) RPCs are issued at seeded moments; GOMAXPROCS in {2,4,16}; seeded delays at 5 schedule points, every 3rd trial a long hold at one of them. " +
+			"pollidle: server with a send timeout T of 50-150 ms, random content, POLL with 1-2 triggers; after every round's sync_response (also the last) the client stays idle for 3-4 x T, then changes the cache, issues the next trigger or closes the request stream; same snapshot oracle per round, RPC must end with nil; the trials of a shard run side by side. " +
 			"An RPC is a distinct non-trivial case when it was judged to the end and at least one of its rounds had a non-empty matching set (hashed by request, cache content and number of rounds); a concurrent trial when all its RPCs were judged (hashed by its schedule-point sequence).",
 		Assumptions: []string{
 			"'matching' is the documented selection: target equal or '*'; query = [origin] + prefix elements + path elements with the origin taken from the prefix or, with an element-less prefix, from the path (no default origin is added); index form = element name followed by its key values in key-name order; a query selects a leaf when it agrees element-wise ('*' = any) and is no longer than the leaf's path, except that one trailing '*' may run past it (model.MatchQ)",
@@ -1948,6 +2090,7 @@ func main() {
 			"for the two origin combinations CompletePath rejects only the end of the RPC is required (the request stream is closed right after the request)",
 			"POLL is driven interactively: a trigger is issued only after the previous sync_response was observed, CloseSend after the last round",
 			"concurrent mode: one writer per target, unique int values, fixed-depth leaves; a value is accepted iff its write was invoked before the response was handed to Send and the next operation on that leaf had not returned before the round started; a leaf is required iff a write to it returned before the round started and no delete covering it was invoked before the round ended; logical clock = one shared atomic counter",
+			"pollidle is one-sided: while the client is idle the server has nothing to send, so correct code has no send timer armed and a longer wait (load) changes nothing; an RPC that ends during that idle period is a violation, a send timeout firing while a round is being sent is recorded as inconclusive (load)",
 			"an RPC or round that does not complete is a violation only when nothing was sent for 20 s after the writers had finished, the harness kept being scheduled throughout, and the goroutine dump shows the RPC still inside Subscribe; otherwise inconclusive. After two such RPCs the remaining RPCs of the shard are skipped",
 		},
 		QuickShards: 8, ThoroughShards: 16,
